@@ -75,6 +75,9 @@ class OctKey(Key):
                 raw.options.update(options)
             return raw
 
+        if isinstance(raw, Key):
+            raise ValueError('Invalid key: a "oct" key is required')
+
         if isinstance(raw, dict):
             cls.check_required_fields(raw)
             key = cls(options=options)
